@@ -873,6 +873,7 @@ def load_findings(ctx: Ctx) -> None:
 # ------------------------------------------------------------------------------------------------
 B_ATTRS = ('.xsi_types', '.selected_by')
 SCRATCH_CLEARED = ('errors', 'id_map', 'identities', 'inherited', 'level', 'elem', 'attribute', 'id_list', 'patterns')
+XPATH_NODE_CLASSES = ('XPathNodeTree', 'SchemaElementNode', 'SchemaAttributeNode', 'SchemaNode')
 IDENT_CLASSES = ('XsdUnique', 'XsdKey', 'XsdKeyref', 'Xsd11Unique', 'Xsd11Key', 'Xsd11Keyref')
 
 
@@ -897,6 +898,23 @@ def classify_diff(d: dict) -> tuple[dict, list]:
                 bad.append((k, a, b))
                 continue
             kind = 'lru cache growth'
+        elif cls in XPATH_NODE_CLASSES and isinstance(a, list) and isinstance(b, list) and a[:1] == b[:1] and \
+                a[0] in ('dict', 'list'):
+            # `schema.xpath_node`: FieldValueSelector / update_elements register the XPath nodes of the element copies
+            # they build (elements.py:425-435 -> elementpath build_schema_node_tree); entries are only added, an
+            # existing key may be re-pointed to the node built last
+            if a[0] == 'dict':
+                ka, kb = [repr(x[0]) for x in a[1:]], [repr(x[0]) for x in b[1:]]
+                grown = all(k in kb for k in ka)
+                if grown and any(x not in b[1:] for x in a[1:]):
+                    kinds['schema XPath node registry: existing key re-pointed'] = \
+                        kinds.get('schema XPath node registry: existing key re-pointed', 0) + 1
+            else:
+                grown = all(x in b[1:] for x in a[1:])
+            if not grown:
+                bad.append((k, a, b))
+                continue
+            kind = 'schema XPath node registry growth'
         elif cls in ('ValidationContext',) and name in SCRATCH_CLEARED:
             kind = 'scratch context (clearable field)'
         elif name == '_is_fully_valid' and a is False and b is True:
@@ -1166,6 +1184,8 @@ def run(ctx: Ctx, driver_ok: bool) -> None:
     nd = len(pools[2].docs)
     for d1 in range(nd):
         for d2 in range(nd):
+            if ctx.quick() and (d1 * 3 + d2 + ctx.seed) % 2:
+                continue                   # half of the ordered pairs per run in the quick tier (seeds 0,1: all)
             op1 = ops2[(d1 + d2 + ctx.seed) % (4 if ctx.quick() else 6)]
             h2 = [[op1, d1, 2], ['iter_errors', d2, 1]]
             if not ctx.quick() or (d1 + d2 + ctx.seed) % 3 == 0:
@@ -1189,7 +1209,7 @@ def run(ctx: Ctx, driver_ok: bool) -> None:
                                 deep=(d1 + d2 * 5 + k) % 23 == 0)
             if ctx.time_left() < 200:
                 break
-    n = ctx.pick(110, 500)
+    n = ctx.pick(100, 500)
     maxlen = ctx.pick(12, 40)
     for i in range(n):
         pi = ctx.rng.randrange(len(pools))
